@@ -4,20 +4,37 @@ import PyIpmi.Gen.Tables
 namespace PyIpmi.Model.Api
 open PyIpmi PyIpmi.Codec PyIpmi.Spec.Bmc PyIpmi.Gen.Tables
 
-/-- get_lan_config_param, continued by `k` on the parameter data -/
-def getLanParam (ch sel setSel blk : Nat) (revOnly : Bool) (k : List Nat → Outcome Result) : Exchange :=
+/-- the request of get_lan_config_param as INTENDED: the channel number and the three selectors are always
+filled in, the "get parameter revision only" bit on top; continued by `post` on the decoded response -/
+def getLanRequest (ch sel setSel blk : Nat) (revOnly : Bool) (post : List Val → Outcome Result) : Exchange :=
   let r := fresh reqGetLanConfigurationParameters
   let r := setBit r 0 2 (b2n revOnly)
-  let r := if revOnly then r else
-    let r := setBit r 0 0 ch
-    let r := setInt r 1 sel
-    let r := setInt r 2 setSel
-    setInt r 3 blk
-  { req := reqGetLanConfigurationParameters, rsp := rspGetLanConfigurationParameters, vals := .ok r,
-    post := fun v => k (arrAt v 2) }
+  let r := setBit r 0 0 ch
+  let r := setInt r 1 sel
+  let r := setInt r 2 setSel
+  let r := setInt r 3 blk
+  { req := reqGetLanConfigurationParameters, rsp := rspGetLanConfigurationParameters, vals := .ok r, post := post }
 
+/-- get_lan_config_param(channel, selector, set, block) in its normal mode, continued by `k` on the parameter
+data (get_ip_address, get_ip_source, get_mac_address, get_vlan_id go through it) -/
+def getLanParam (ch sel setSel blk : Nat) (k : List Nat → Outcome Result) : Exchange :=
+  getLanRequest ch sel setSel blk false fun v => k (arrAt v 2)
+
+/-- get_lan_config_param as INTENDED (fixes/C07-8): revision-only mode addresses the same channel / parameter
+and returns `rsp.parameter_revision`; the normal mode returns `rsp.data` -/
 def api_get_lan_config_param (ch sel setSel blk : Nat) (revOnly : Bool) : Exchange :=
-  getLanParam ch sel setSel blk revOnly fun d => .ok (.bytes d)
+  getLanRequest ch sel setSel blk revOnly fun v =>
+    if revOnly then .ok (.nat (intAt v 1)) else .ok (.bytes (arrAt v 2))
+
+/-- get_lan_config_param AS SHIPPED: with `revision_only=1` the `if revision_only != 1:` block that fills in
+the channel number and the selectors is skipped (request byte 1 = 80h: channel 0, parameter 0) and `rsp.data`
+- empty in this mode - is returned instead of the revision -/
+def api_get_lan_config_param_shipped (ch sel setSel blk : Nat) (revOnly : Bool) : Exchange :=
+  if revOnly then
+    { req := reqGetLanConfigurationParameters, rsp := rspGetLanConfigurationParameters,
+      vals := .ok (setBit (fresh reqGetLanConfigurationParameters) 0 2 1),
+      post := fun v => .ok (.bytes (arrAt v 2)) }
+  else api_get_lan_config_param ch sel setSel blk false
 
 def api_set_lan_config_param (ch sel : Nat) (data : List Nat) : Exchange :=
   let r := fresh reqSetLanConfigurationParameters
@@ -28,14 +45,14 @@ def api_set_lan_config_param (ch sel : Nat) (data : List Nat) : Exchange :=
     post := fun _ => .ok .unit }
 
 def api_get_ip_address (ch : Nat) : Exchange :=
-  getLanParam ch lanIp 0 0 false fun d => .ok (.ip d)
+  getLanParam ch lanIp 0 0 fun d => .ok (.ip d)
 
 /-- `ip` = the integers between the dots -/
 def api_set_ip_address (ip : List Nat) (ch : Nat) : Exchange :=
   if ip.any (· ≥ 256) then .raise (.pyError "OverflowError") else api_set_lan_config_param ch lanIp ip
 
 def api_get_ip_source (ch : Nat) : Exchange :=
-  getLanParam ch lanIpSrc 0 0 false fun d =>
+  getLanParam ch lanIpSrc 0 0 fun d =>
     match d with
     | d0 :: _ =>
       match lookup rawToIpSrc (d0 % 16) with
@@ -49,7 +66,7 @@ def api_set_ip_source (src ch : Nat) : Exchange :=
   | none => .raise (.pyError "ValueError")
 
 def api_get_mac_address (ch : Nat) : Exchange :=
-  getLanParam ch lanMac 0 0 false fun d => .ok (.mac d)
+  getLanParam ch lanMac 0 0 fun d => .ok (.mac d)
 
 /-- data_to_vlan -/
 def dataToVlan (d : List Nat) : Outcome Nat :=
@@ -64,7 +81,7 @@ def vlanToData (v : Nat) : Outcome (List Nat) :=
   else .ok [v % 256, 128 ||| (v / 256 % 16)]
 
 def api_get_vlan_id (ch : Nat) : Exchange :=
-  getLanParam ch lanVlan 0 0 false fun d => (dataToVlan d).bind fun v => .ok (.nat v)
+  getLanParam ch lanVlan 0 0 fun d => (dataToVlan d).bind fun v => .ok (.nat v)
 
 def api_set_vlan_id (v ch : Nat) : Exchange :=
   match vlanToData v with
